@@ -20,13 +20,15 @@ def run(binary, workdir, transcript, syscalls=SYSCALLS, max_n=40, only_files=Non
     # strace counts `when=` per thread, so one file is targeted per run (-P) to fail its calls one at a time
     targets = [(sc, os.path.basename(pth) or ".") for pth in _paths(tmpl) for sc in syscalls
                if not pth.endswith(".lock") and (only_files is None or re.search(only_files, os.path.basename(pth)))]
-    for sc, fname in targets:
+    # two passes: all threads (-f), and the calling thread alone (a later call on the committing thread is
+    # otherwise masked by the same kind of call failing earlier on a worker thread)
+    for follow, (sc, fname) in [(f_, t_) for f_ in (True, False) for t_ in targets]:
         n = 1
         while n <= max_n:
             shutil.rmtree(d, ignore_errors=True)
             shutil.copytree(tmpl, d)
             st = os.path.join(workdir, "trace")
-            cmd = ["strace", "-f", "-y", "-ttt", "-e", "trace=" + sc, "-e", "inject=%s:error=EIO:when=%d" % (sc, n), "-o", st,
+            cmd = ["strace"] + (["-f"] if follow else []) + ["-y", "-ttt", "-e", "trace=" + sc, "-e", "inject=%s:error=EIO:when=%d" % (sc, n), "-o", st,
                    "-P", d if fname == os.path.basename(tmpl) else os.path.join(d, fname)]
             p = subprocess.run(cmd + [binary, "c14_commit_for_injection", d], stdout=subprocess.PIPE, stderr=subprocess.STDOUT, text=True)
             tr = open(st).read() if os.path.exists(st) else ""
@@ -36,8 +38,8 @@ def run(binary, workdir, transcript, syscalls=SYSCALLS, max_n=40, only_files=Non
             injected_runs += 1
             m = re.search(r"verif-result (.*)", p.stdout)
             res = m.group(1) if m else "no result line (%s)" % p.stdout.strip()[-100:]
-            what = re.sub(r"^\d+\s+[\d.]+\s+", "", inj[0])[:110]
-            tm = re.match(r"\d+\s+([\d.]+)", inj[0])
+            what = re.sub(r"^(?:\d+\s+)?\d+\.\d+\s+", "", inj[0])[:110]
+            tm = re.match(r"(?:\d+\s+)?(\d+\.\d+)", inj[0])
             t_inj = float(tm.group(1)) if tm else 0.0
             tr_m = re.search(r"t_commit_returned=(\d+)", res)
             during = bool(tr_m) and t_inj * 1e6 < int(tr_m.group(1))
@@ -52,7 +54,7 @@ def run(binary, workdir, transcript, syscalls=SYSCALLS, max_n=40, only_files=Non
                     bad = "commit returned Err but the handle is not poisoned / accepts the next commit"
             elif not m and "panicked" in p.stdout:
                 bad = None  # an unwrap on an I/O error is a loud failure, not a swallowed one
-            lines.append("%-10s #%-2d %-112s -> %s%s" % (sc, n, what, res, "   <== VIOLATION: " + bad if bad else ""))
+            lines.append("%-10s #%-2d %-4s %-112s -> %s%s" % (sc, n, "all" if follow else "main", what, res, "   <== VIOLATION: " + bad if bad else ""))
             if bad:
                 problems.append("%s #%d (%s): %s" % (sc, n, what, bad))
             n += 1
